@@ -75,7 +75,10 @@ MayForward(n, s, k, S) ==
     /\ \E r \in S : r.peer = s /\ r.addr = AddrOf[k] /\ r.type = "forwarding"                                  \* negotiated by s
 
 \* an authenticated datagram from s handled by n: control messages may change records, relayed packets may be
-\* forwarded; a relayed packet that carries a valid handshake may bring a disestablished record of that relay back
+\* forwarded; a relayed packet that carries a valid handshake may bring a disestablished record of that relay back --
+\* or a record that is still "requested": the relay uses the index it was sent in the request before its response got
+\* through (handshake_manager.go: UpdateRelayForByIdxState(.., Established) after a valid relayed handshake, whatever
+\* the state was)
 \* and may create a tunnel (newtuns)
 Recv(n, s, typ, new, fwd, newtuns, ri) ==
     /\ s \in tuns[n]
@@ -85,7 +88,7 @@ Recv(n, s, typ, new, fwd, newtuns, ri) ==
        IN /\ (typ \notin {"control", "relay"} => changed = {})
           /\ (typ = "control" => \A k \in changed : ChangeOK(n, s, old, new, k))
           /\ (typ = "relay" => \A k \in changed : /\ k[1] = s /\ k \in Keys(old) /\ k \in Keys(new)
-                                                    /\ ByKey(old, k).state = "disestablished" /\ ByKey(new, k).state = "established"
+                                                    /\ ByKey(old, k).state \in {"disestablished", "requested"} /\ ByKey(new, k).state = "established"
                                                     /\ ByKey(old, k).lidx = ByKey(new, k).lidx /\ ByKey(old, k).type = ByKey(new, k).type)
           /\ UniqueIdx(new)
           /\ (typ # "relay" => fwd = {})
